@@ -9,6 +9,7 @@ import (
 	"strconv"
 	"strings"
 	"sync"
+	"sync/atomic"
 	"time"
 
 	"github.com/gorilla/websocket"
@@ -84,7 +85,41 @@ func serveWS(c *Case, forceSync bool) *served {
 		return out
 	}
 	defer conn.Close()
-	send := func(m wsMsg) error { b, _ := json.Marshal(m); return conn.WriteMessage(websocket.TextMessage, b) }
+	var wmu sync.Mutex // one writer at a time (the case's cancellation may write from a server-side goroutine)
+	send := func(m wsMsg) error {
+		b, _ := json.Marshal(m)
+		wmu.Lock()
+		defer wmu.Unlock()
+		return conn.WriteMessage(websocket.TextMessage, b)
+	}
+	closeDone := make(chan struct{})
+	var closeCalled atomic.Bool
+	if !forceSync && c.cancels() {
+		// the sources that cancel the context the resolvers see (graphqlws.go: Handler.Cancel)
+		w.cn.fn = func() {
+			switch c.CancelSrc {
+			case "terminate":
+				send(wsMsg{Type: "connection_terminate"}) //
+			case "stop":
+				// graphql-ws `stop`: HandleStop stops the source stream (its Run context is cancelled, not the
+				// one the resolvers see) while the event is executing; the event must still complete
+				send(wsMsg{ID: "1", Type: "stop"})
+				return
+			case "client-close":
+				conn.UnderlyingConn().Close() // the peer vanishes
+			default: // close-hijacked
+				closeCalled.Store(true)
+				go func() { theAPI.CloseHijackedConnections(); close(closeDone) }()
+			}
+			if c.CancelSrc == "" || c.CancelSrc == "close-hijacked" {
+				if !w.awaitCancelled(30 * time.Second) {
+					w.cancelNote("harness: CloseHijackedConnections did not cancel the handler's context")
+				}
+			} else if !w.awaitCancelled(2 * time.Second) {
+				w.cancelNote("cancel-source-took-no-effect-within-2s(read loop busy?)")
+			}
+		}
+	}
 	if err := send(wsMsg{Type: "connection_init"}); err != nil {
 		out.panicked = "harness: " + err.Error()
 		return out
@@ -104,6 +139,9 @@ func serveWS(c *Case, forceSync bool) *served {
 				out.stacks = allStacks()
 				return out
 			}
+			if w.cn.fired.Load() {
+				break // the connection went away because the case closed it
+			}
 			out.panicked = "connection ended before the operation completed: " + err.Error()
 			return out
 		}
@@ -121,7 +159,22 @@ func serveWS(c *Case, forceSync bool) *served {
 			break
 		}
 	}
+	if w.cn.fired.Load() {
+		// whatever happened to the connection, every execution that began must return, and a
+		// CloseHijackedConnections call must come back
+		deadline := time.Now().Add(wd)
+		for w.cn.returned.Load() < w.cn.started.Load() || (closeCalled.Load() && !chanClosed(closeDone)) {
+			if time.Now().After(deadline) {
+				out.deadlock = true
+				out.stacks = allStacks()
+				return out
+			}
+			time.Sleep(200 * time.Microsecond)
+		}
+	}
+	wmu.Lock()
 	conn.WriteMessage(websocket.CloseMessage, websocket.FormatCloseMessage(websocket.CloseNormalClosure, ""))
+	wmu.Unlock()
 	conn.SetReadDeadline(time.Now().Add(5 * time.Second))
 	for {
 		if _, _, err := conn.ReadMessage(); err != nil {
@@ -144,4 +197,13 @@ func allStacks() string {
 		}
 		return b.String()
 	}())
+}
+
+func chanClosed(ch chan struct{}) bool {
+	select {
+	case <-ch:
+		return true
+	default:
+		return false
+	}
 }
